@@ -92,4 +92,20 @@ location_within = Contract(
     canaries=["result[2] is None"],
 )
 
-CONTRACTS = [unquote, code_quoted, quote, location_within]
+quote_idem = Contract(
+    "vf.contracts.laws:quote_twice",
+    properties=["C08"],
+    cases=[Case("str", {"s": "str"}), Case("None", {"s": None})],
+    ensures=[Clause("QL1", "result[0] == result[1]", note="quote(quote(s)) == quote(s)")],
+)
+
+unquote_quote = Contract(
+    "vf.contracts.laws:unquote_quote",
+    properties=["C08", "C17"],
+    cases=[Case("str", {"s": "str"})],
+    ensures=[Clause("QL2", "len(s) == 0 or %s or result == s" % Q.format("s"),
+                    note="unquote(quote(s)) == s for non-empty text that is not already quoted")],
+    canaries=["result != s"],
+)
+
+CONTRACTS = [unquote, code_quoted, quote, location_within, quote_idem, unquote_quote]
